@@ -732,9 +732,9 @@ func (w *world) opBlock(dt int64) {
 		case strings.Contains(res, "covert power diff to dec err"):
 			site = "isNeedOracleSetRequest:LegacyNewDecFromStr"
 		case strings.Contains(res, "nil pointer"):
-			site = "nil-dereference"
+			site = "isNeedOracleSetRequest:nil-latestOracleSet"
 		case strings.Contains(res, "division by zero"):
-			site = "division-by-zero"
+			site = "GetCurrentOracleSet:QuoUint64"
 		}
 		w.dead = true
 		aged := 0
